@@ -10,7 +10,7 @@ use similar::{ChangeTag, DiffableStr, TextDiff};
 
 pub struct C17;
 
-fn judge<'a, T: DiffableStr + ?Sized + 'a>(d: &'a TextDiff<'a, 'a, 'a, T>, old: &'a T, new: &'a T, obs: &mut Obs) -> Result<(), String> {
+fn judge<'a, T: DiffableStr + ?Sized + 'a>(d: &'a TextDiff<'a, 'a, 'a, T>, old: &'a T, new: &'a T, allow_empty: bool, obs: &mut Obs) -> Result<(), String> {
     let ob = old.as_bytes();
     let nb = new.as_bytes();
     let (old_tokens, new_tokens) = (d.old_slices(), d.new_slices());
@@ -57,10 +57,10 @@ fn judge<'a, T: DiffableStr + ?Sized + 'a>(d: &'a TextDiff<'a, 'a, 'a, T>, old: 
                     return Err(format!("TextDiffRemapper::{}: {:?}: slice {:?} != concatenation of the op's tokens {:?}", which, op, escape_bytes(gb), escape_bytes(wb)));
                 }
                 let base = if *gt == ChangeTag::Insert { nb } else { ob };
-                if gb.is_empty() {
+                if gb.is_empty() && !allow_empty {
                     return Err(format!("TextDiffRemapper::{}: {:?}: empty slice", which, op));
                 }
-                if gb.as_ptr() as usize != base.as_ptr() as usize + woff {
+                if !gb.is_empty() && gb.as_ptr() as usize != base.as_ptr() as usize + woff {
                     return Err(format!("TextDiffRemapper::{}: {:?}: slice is not the substring of the original text at byte {}", which, op, woff));
                 }
             }
@@ -143,29 +143,144 @@ fn helpers(c: &TextCase) -> Result<(), String> {
     }
 }
 
+/// an item whose equality (and hash, order) looks only at `key`; `payload` tells occurrences apart
+#[derive(Clone, Copy, Debug)]
+struct Rec {
+    key: u8,
+    payload: u32,
+}
+impl PartialEq for Rec {
+    fn eq(&self, o: &Rec) -> bool {
+        self.key == o.key
+    }
+}
+impl Eq for Rec {}
+impl std::hash::Hash for Rec {
+    fn hash<H: std::hash::Hasher>(&self, h: &mut H) {
+        self.key.hash(h)
+    }
+}
+impl PartialOrd for Rec {
+    fn partial_cmp(&self, o: &Rec) -> Option<std::cmp::Ordering> {
+        Some(self.cmp(o))
+    }
+}
+impl Ord for Rec {
+    fn cmp(&self, o: &Rec) -> std::cmp::Ordering {
+        self.key.cmp(&o.key)
+    }
+}
+
 fn helper_slices(c: &TextCase) -> Result<(), String> {
-    // utils::diff_slices over the raw bytes as items
-    let out = utils::diff_slices(alg_of(c.alg), &c.old.0[..], &c.new.0[..]);
-    let mut oc = vec![];
-    let mut nc = vec![];
+    // utils::diff_slices over the raw bytes as items: every returned slice is a sub-slice of the
+    // proper input at the position the walk has reached (pointer arithmetic)
+    let (old, new) = (&c.old.0[..], &c.new.0[..]);
+    let out = utils::diff_slices(alg_of(c.alg), old, new);
+    let (mut oi, mut ni) = (0usize, 0usize);
     for (tag, s) in &out {
         if s.is_empty() {
             return Err("utils::diff_slices returned an empty slice".into());
         }
+        let (base, off) = if *tag == ChangeTag::Insert { (new, ni) } else { (old, oi) };
+        if off + s.len() > base.len() || s.as_ptr() as usize != base.as_ptr() as usize + off {
+            return Err(format!("utils::diff_slices: the {:?} slice {:?} is not the sub-slice of the {} input at item {}", tag, escape_bytes(s), if *tag == ChangeTag::Insert { "new" } else { "old" }, off));
+        }
         if *tag != ChangeTag::Insert {
-            oc.extend_from_slice(s);
+            oi += s.len();
         }
         if *tag != ChangeTag::Delete {
-            nc.extend_from_slice(s);
+            ni += s.len();
         }
     }
-    if oc != c.old.0 || nc != c.new.0 {
+    if oi != old.len() || ni != new.len() {
         return Err("utils::diff_slices does not reconstruct the inputs".into());
+    }
+    // the same over record items that compare by key only: the items handed back must be the very
+    // items of old (non-Insert) / new (Insert), which the payloads tell apart
+    let ro: Vec<Rec> = old.iter().enumerate().map(|(i, b)| Rec { key: *b, payload: i as u32 }).collect();
+    let rn: Vec<Rec> = new.iter().enumerate().map(|(i, b)| Rec { key: *b, payload: 1_000_000 + i as u32 }).collect();
+    let out = utils::diff_slices(alg_of(c.alg), &ro[..], &rn[..]);
+    let mut po = vec![];
+    let mut pn = vec![];
+    for (tag, s) in &out {
+        for r in s.iter() {
+            if *tag != ChangeTag::Insert {
+                po.push(r.payload);
+            }
+            if *tag == ChangeTag::Insert {
+                pn.push(r.payload);
+            }
+        }
+    }
+    let want_o: Vec<u32> = (0..old.len() as u32).collect();
+    if po != want_o {
+        return Err(format!("utils::diff_slices over items compared by key: the non-Insert slices hand back items with payloads {:?}, the old items are {:?}", po, want_o));
+    }
+    if pn.iter().any(|p| *p < 1_000_000) {
+        return Err("utils::diff_slices over items compared by key: an Insert slice hands back an old item".into());
     }
     Ok(())
 }
 
+/// a caller-defined tokenization: the text cut at pseudo-randomly chosen (char) boundaries, with an
+/// occasional EMPTY token; `seed` makes it a function of the case
+fn custom_cuts(len: usize, is_boundary: &dyn Fn(usize) -> bool, seed: u64) -> Vec<(usize, usize)> {
+    let mut x = seed.wrapping_mul(0x9E37_79B9_7F4A_7C15) | 1;
+    let mut next = move || {
+        x ^= x >> 12;
+        x ^= x << 25;
+        x ^= x >> 27;
+        (x.wrapping_mul(0x2545_F491_4F6C_DD1D) >> 40) as u32
+    };
+    let mut out = vec![];
+    let mut start = 0;
+    for i in 1..=len {
+        if i == len || (is_boundary(i) && next() % 3 == 0) {
+            out.push((start, i));
+            start = i;
+            if next() % 6 == 0 {
+                out.push((i, i));
+            }
+        }
+    }
+    if len == 0 && seed % 2 == 0 {
+        out.push((0, 0));
+    }
+    out
+}
+
+fn check_custom(c: &TextCase, obs: &mut Obs) -> Verdict {
+    let cfg = config(c.alg);
+    let seed = c.old.0.len() as u64 * 31 + c.new.0.len() as u64 * 17 + c.tok as u64;
+    obs.class("caller-defined tokenization (with empty tokens) through diff_slices + TextDiffRemapper");
+    let r = if c.use_bytes() {
+        let (o, n) = (&c.old.0[..], &c.new.0[..]);
+        let to: Vec<&[u8]> = custom_cuts(o.len(), &|_| true, seed).into_iter().map(|(a, b)| &o[a..b]).collect();
+        let tn: Vec<&[u8]> = custom_cuts(n.len(), &|_| true, seed + 1).into_iter().map(|(a, b)| &n[a..b]).collect();
+        guard(|| {
+            let d = cfg.diff_slices(&to, &tn);
+            judge(&d, o, n, true, obs)
+        })
+    } else {
+        let (o, n) = (c.old.as_str().unwrap(), c.new.as_str().unwrap());
+        let to: Vec<&str> = custom_cuts(o.len(), &|i| o.is_char_boundary(i), seed).into_iter().map(|(a, b)| &o[a..b]).collect();
+        let tn: Vec<&str> = custom_cuts(n.len(), &|i| n.is_char_boundary(i), seed + 1).into_iter().map(|(a, b)| &n[a..b]).collect();
+        guard(|| {
+            let d = cfg.diff_slices(&to, &tn);
+            judge(&d, o, n, true, obs)
+        })
+    };
+    match r {
+        Ok(Ok(())) => Verdict::Pass,
+        Ok(Err(m)) => Verdict::Fail(format!("{} custom tokenization of {:?} / {:?}: {}", alg_name(c.alg), c.old, c.new, m)),
+        Err(p) => Verdict::Fail(format!("{} custom tokenization of {:?} / {:?}: remapper: {}", alg_name(c.alg), c.old, c.new, p)),
+    }
+}
+
 pub fn check_case(c: &TextCase, obs: &mut Obs) -> Verdict {
+    if c.opt % 8 == 6 {
+        return check_custom(c, obs);
+    }
     let cfg = config(c.alg);
     let what = format!("{} {} {}", alg_name(c.alg), TOKENIZERS[(c.tok % 5) as usize], if c.use_bytes() { "[u8]" } else { "str" });
     obs.class(TOKENIZERS[(c.tok % 5) as usize]);
@@ -176,13 +291,13 @@ pub fn check_case(c: &TextCase, obs: &mut Obs) -> Verdict {
     let r = if c.use_bytes() {
         guard(|| {
             let d = diff_bytes(&cfg, c.tok, &c.old.0, &c.new.0);
-            judge(&d, &c.old.0[..], &c.new.0[..], obs)
+            judge(&d, &c.old.0[..], &c.new.0[..], false, obs)
         })
     } else {
         guard(|| {
             let (o, n) = (c.old.as_str().unwrap(), c.new.as_str().unwrap());
             let d = diff_str(&cfg, c.tok, o, n);
-            judge(&d, o, n, obs)
+            judge(&d, o, n, false, obs)
         })
     };
     match r {
@@ -232,7 +347,7 @@ impl Prop for C17 {
     type Case = TextCase;
     const ID: &'static str = "C17";
     fn rule() -> String {
-        "cases = (old text, new text, tokenizer, algorithm, str | [u8]) from the shared text mixture (see C04) plus an enumeration of 6x6 corner texts x 5 tokenizers x 3 algorithms x {str,[u8]} (covers (\"\",\"\") for every algorithm). Oracle: TextDiffRemapper::{from_text_diff,new}::iter_slices(op) has the tags of DiffOp::iter_slices over the token vectors, each slice equals the concatenation of the op's tokens and is the substring of the original at the right byte offset (pointer arithmetic); slice_old/slice_new agree; non-Insert slices concatenate to old, non-Delete to new; utils::diff_{lines,words,chars,unicode_words,graphemes,slices} reconstruct both inputs, return no empty slice and do not panic. Non-trivial = >= 2 ops and a multi-token slice; distinct = distinct serialized case.".into()
+        "cases = (old text, new text, tokenizer, algorithm, str | [u8]) from the shared text mixture (see C04) plus an enumeration of 6x6 corner texts x 5 tokenizers x 3 algorithms x {str,[u8]} (covers (\"\",\"\") for every algorithm). Oracle: TextDiffRemapper::{from_text_diff,new}::iter_slices(op) has the tags of DiffOp::iter_slices over the token vectors, each slice equals the concatenation of the op's tokens and is the substring of the original at the right byte offset (pointer arithmetic); slice_old/slice_new agree; non-Insert slices concatenate to old, non-Delete to new; utils::diff_{lines,words,chars,unicode_words,graphemes,slices} reconstruct both inputs, return no empty slice and do not panic; every utils::diff_slices slice is the sub-slice of the proper input at the walk position (pointer arithmetic), also over record items that compare by key only (payloads tell old from new items). 1 random case in 8 uses a CALLER-DEFINED tokenization (text cut at pseudo-random char boundaries, occasional empty tokens) through TextDiffConfig::diff_slices + both remapper constructors (the no-empty-slice clause is not applied there). Non-trivial = >= 2 ops and a multi-token slice; distinct = distinct serialized case.".into()
     }
     fn assumptions() -> Vec<String> {
         vec!["the original strings passed to the remapper are the ones the diff was built from".into()]
